@@ -1,0 +1,121 @@
+//go:build verif
+
+// Contracts for package helper, read by the verification-condition generator
+// in /verif/engine.  This file contains comments only: with the build tag
+// off it is not compiled, with the tag on it adds no code.
+package helper
+
+//@ const DeleteSlotsAnn = "delete-slots"
+//@ const PausedReconcileAnn = "paused-reconcile"
+
+// ---- desired ordinals (property C01) -----------------------------------------------------------
+// desired(r, S, x): x is one of the r smallest non-negative integers that are not in S
+// ("x is not a slot and fewer than r non-slots precede it").
+//@ spec func desired(r int, S set[int], x int) bool = x >= 0 && !S[x] && x - count(S, 0, x) < r
+
+//@ lemma card_range: forall E set[int], B int :: {count(E, 0, B)} 0 <= B && B <= MaxInt32 + 1 && (forall y int32 :: E[y] ==> 0 <= y && y < B) ==> card(E) == count(E, 0, B)
+//@   uses count_split, count_empty, count_bound
+//@ lemma rank_below: forall S set[int], x int, B int :: {count(S, 0, B), count(S, 0, x)} 0 <= x && x < B && !S[x] ==> count(S, 0, B) <= count(S, 0, x) + (B - x - 1)
+//@   uses count_split, count_nofirst, count_bound
+//@ lemma rank_above: forall S set[int], x int, B int :: {count(S, 0, B), count(S, 0, x)} 0 <= B && B <= x ==> count(S, 0, x) <= count(S, 0, B) + (x - B)
+//@   uses count_split, count_bound
+//@ lemma desired_bridge: forall S set[int], E set[int], B int, x int :: {count(E, 0, B), count(S, 0, B), count(S, 0, x)} desiredT(S, E, B, x) && B - card(E) >= 0 && 0 <= B && B <= MaxInt32 + 1 && (forall y int32 :: E[y] <==> (S[y] && 0 <= y && y < B)) ==> (desired(B - card(E), S, x) <==> (0 <= x && x < B && !E[x]))
+//@   uses card_range, rank_below, rank_above, count_ext, count_bound
+// desiredT is always true; it only mentions the count terms the proof of the bridge lemma has to talk about.
+//@ spec func desiredT(S set[int], E set[int], B int, x int) bool = mention(count(E, 0, B)) && mention(count(S, 0, B)) && mention(count(S, 0, x))
+//@ lemma card_nonempty: forall s set[int] :: {card(s)} card(s) > 0 ==> (exists x int :: MinInt32 <= x && x <= MaxInt32 && s[x])
+//@   uses count_empty
+
+// ---- the delete-slots annotation ------------------------------------------------------------------
+// Assumed semantics of encoding/json on []int32 (see /verif/contracts/external): jsonOK(s) says s
+// decodes into an []int32 without error, jsonElems(s) is the set of its elements.
+//@ spec func jsonOK(s string) bool
+//@ spec func jsonElems(s string) set[int]
+//@ spec func annOf(o iface) map[string]string = asRef(o, "*metav1.ObjectMeta").Annotations
+//@ spec func slotsAnn(o iface) set[int] = ite(annOf(o) != nil && annOf(o).has(DeleteSlotsAnn) && jsonOK(annOf(o)[DeleteSlotsAnn]), jsonElems(annOf(o)[DeleteSlotsAnn]), emptyset())
+
+//@ func GetDeleteSlots
+//@   requires set != nil
+//@   ensures [C01,C19] freshslots: fresh(deleteSlots)
+//@   ensures [C01,C19] decoded: forall x int32 :: {deleteSlots.has(x)} deleteSlots.has(x) <==> slotsAnn(set)[x]
+
+//@ extern encoding/json:Unmarshal@GetDeleteSlots
+//@   params data, v
+//@   requires typeIs(v, "*[]int32") && asRef(v, "*[]int32") != nil
+//@   modifies *asRef(v, "*[]int32")
+//@   ensures (result == nil) <==> jsonOK(bytesToString(data))
+//@   ensures result == nil ==> (forall x int32 :: {jsonElems(bytesToString(data))[x]} jsonElems(bytesToString(data))[x] <==> (exists j int :: 0 <= j && j < len(deref(asRef(v, "*[]int32"))) && deref(asRef(v, "*[]int32"))[j] == x))
+
+//@ func GetPausedReconcile
+//@   requires set != nil
+//@   ensures [C11,C19] result == (annOf(set) != nil && annOf(set).has(PausedReconcileAnn) && annOf(set)[PausedReconcileAnn] == "true")
+
+//@ func GetMaxReplicaCountAndDeleteSlots
+//@   results bound, eff
+//@   requires replicas >= 0
+//@   requires replicas + card(deleteSlots) <= MaxInt32
+//@   ensures [C01] effsub: forall x int32 :: {eff.has(x)} eff.has(x) ==> old(deleteSlots.has(x)) && 0 <= x && x < bound
+//@   ensures [C01] effall: forall x int32 :: {old(deleteSlots.has(x))} old(deleteSlots.has(x)) && 0 <= x && x < bound ==> eff.has(x)
+//@   ensures [C01] boundcard: bound == replicas + card(eff)
+//@   ensures fresheff: fresh(eff)
+//@   ghost var C0 set[int]
+//@   loop 1 "range deleteSlots" visited V
+//@     invariant fresh(deleteSlotsCopy) && deleteSlotsCopy != deleteSlots
+//@     invariant forall x int32 :: {deleteSlotsCopy.has(x)} deleteSlotsCopy.has(x) <==> V[x]
+//@   at loopstart 2: ghost C0 = dom(deleteSlotsCopy)
+//@   loop 2 "range deleteSlotsCopy.List()" index k list L
+//@     invariant fresh(deleteSlotsCopy) && deleteSlotsCopy != deleteSlots
+//@     invariant replicas <= replicaCount && replicaCount - replicas <= k
+//@     invariant kept: forall j int :: {L[j]} 0 <= j && j < k && deleteSlotsCopy.has(L[j]) ==> 0 <= L[j] && L[j] < replicaCount
+//@     invariant dropped: forall j int :: {L[j]} 0 <= j && j < k && !deleteSlotsCopy.has(L[j]) ==> L[j] < 0 || L[j] >= replicaCount
+//@     invariant rest: forall j int :: {L[j]} k <= j && j < len(L) ==> deleteSlotsCopy.has(L[j])
+//@     invariant sub: forall x int32 :: {deleteSlotsCopy.has(x)} deleteSlotsCopy.has(x) ==> C0[x]
+//@     invariant c0: forall x int32 :: {C0[x]} C0[x] <==> old(deleteSlots.has(x))
+//@     invariant cardinv: card(deleteSlotsCopy) == len(L) - k + (replicaCount - replicas)
+//@     invariant lenl: len(L) == card(C0)
+
+//@ func GetPodOrdinalsFromReplicasAndDeleteSlots
+//@   requires replicas >= 0
+//@   requires replicas + card(deleteSlots) <= MaxInt32
+//@   ensures [C01] members: forall x int32 :: {result.has(x)} result.has(x) <==> desired(replicas, old(dom(deleteSlots)), x)
+//@   ensures [C01] exactly: card(result) == replicas
+//@   ensures freshres: fresh(result)
+//@   loop 1 "for i := int32(0); i < maxReplicaCount"
+//@     invariant 0 <= i && i <= maxReplicaCount
+//@     invariant fresh(podOrdinals) && podOrdinals != deleteSlots
+//@     invariant forall x int32 :: {podOrdinals.has(x)} podOrdinals.has(x) <==> (0 <= x && x < i && !deleteSlots.has(x))
+//@     invariant card(podOrdinals) + count(dom(deleteSlots), 0, i) == i
+//@   at exit: assert bridge: forall x int32 :: {result.has(x)} desiredT(old(dom(deleteSlots)), dom(deleteSlots), maxReplicaCount, x)
+
+//@ func GetPodOrdinals
+//@   requires set != nil && replicas >= 0
+//@   requires replicas + card(slotsAnn(set)) <= MaxInt32
+//@   ensures [C01] members: forall x int32 :: {result.has(x)} result.has(x) <==> desired(replicas, slotsAnn(set), x)
+//@   ensures [C01] exactly: card(result) == replicas
+//@   ensures freshres: fresh(result)
+
+//@ func GetMaxPodOrdinal
+//@   requires set != nil && replicas >= 0
+//@   requires replicas + card(slotsAnn(set)) <= MaxInt32
+//@   ensures [C01] none: replicas == 0 ==> result == -1
+//@   ensures [C01] highest: replicas > 0 ==> desired(replicas, slotsAnn(set), result) && (forall x int32 :: desired(replicas, slotsAnn(set), x) ==> x <= result)
+//@   ghost var S set[int] = slotsAnn(set)
+//@   loop 1 "range GetPodOrdinals(replicas, set)" visited V list D
+//@     invariant -1 <= max && max <= MaxInt32
+//@     invariant forall x int32 :: {V[x]} V[x] ==> x <= max && V[max]
+//@     invariant max == -1 || V[max]
+//@     invariant card(D) == replicas
+//@     invariant forall x int32 :: {D[x]} {count(S, 0, x)} D[x] <==> desired(replicas, S, x)
+
+//@ func GetMinPodOrdinal
+//@   requires set != nil && replicas >= 0
+//@   requires replicas + card(slotsAnn(set)) <= MaxInt32
+//@   ensures [C01] none: replicas == 0 ==> result == MaxInt32
+//@   ensures [C01] lowest: replicas > 0 ==> desired(replicas, slotsAnn(set), result) && (forall x int32 :: desired(replicas, slotsAnn(set), x) ==> result <= x)
+//@   ghost var S set[int] = slotsAnn(set)
+//@   loop 1 "range GetPodOrdinals(replicas, set)" visited V list D
+//@     invariant 0 <= min && min <= MaxInt32
+//@     invariant forall x int32 :: {V[x]} V[x] ==> min <= x && V[min]
+//@     invariant min == MaxInt32 || V[min]
+//@     invariant card(D) == replicas
+//@     invariant forall x int32 :: {D[x]} {count(S, 0, x)} D[x] <==> desired(replicas, S, x)
